@@ -422,6 +422,16 @@ func runVariants(res *core.Result, r *rand.Rand, caps []*capture, idV *m.Address
 					res.Violate("forged-announcement-forwarded:"+v.op, fmt.Sprintf("variant %s (origin %s) made the victim forward %d announcement frame(s)", v.op, c.origin, nAnn), wit)
 					return
 				}
+				// a second delivery of the same forgery to the same router (whatever the first one left behind must not help)
+				vc.ms.DeliverOn(&vmesh.Packet{From: 1, To: 0, Data: v.data}, 0, 1)
+				if len(vc.ms.Panics) > 0 {
+					res.Violate("handler-panic:"+v.op, fmt.Sprintf("announcement variant %s (second delivery): %v", v.op, vc.ms.Panics[0]), wit)
+					return
+				}
+				if vc.tableKey() != before {
+					res.Violate("forged-announcement-accepted-on-second-delivery:"+strings.SplitN(v.op, "/", 2)[0], fmt.Sprintf("variant %s (origin %s) was rejected once, but the same frame delivered again changed the routing table:\n%s", v.op, c.origin, vc.tableKey()), wit)
+					return
+				}
 				res.Count("rejected:"+strings.SplitN(v.op, "/", 2)[0], 1)
 				res.Case(key, v.multi || v.depth >= 1)
 				continue
@@ -459,6 +469,28 @@ func runVariants(res *core.Result, r *rand.Rand, caps []*capture, idV *m.Address
 				res.Violate("authentic-announcement-wrong-route", fmt.Sprintf("route learned from an authentic announcement of %s does not list exactly the signed hop records: %+v", c.origin, got.Path.Hops), wit)
 				return
 			}
+			// tampered redelivery: the same frame (same timestamp) with a modified body or origin signature must not change the route
+			accepted := vc.tableKey()
+			mi := 49 + int(v.data[48])
+			ml := int(v.data[mi])<<8 | int(v.data[mi+1])
+			for k := 0; k < 6; k++ {
+				d := append([]byte(nil), v.data...)
+				pos := mi + 2 + ml - 1 - r.IntN(min(ml, 24)) // tail of the body: return label, stub flag, expiry
+				if k%3 == 2 {
+					pos = mi + 2 + ml + r.IntN(64) // origin signature
+				}
+				d[pos] ^= 1 << uint(r.IntN(8))
+				vc.ms.DeliverOn(&vmesh.Packet{From: 1, To: 0, Data: d}, 0, 1)
+				if len(vc.ms.Panics) > 0 {
+					res.Violate("handler-panic:tampered-redelivery", fmt.Sprintf("tampered redelivery: %v", vc.ms.Panics[0]), wit)
+					return
+				}
+				if vc.tableKey() != accepted {
+					res.Violate("tampered-redelivery-accepted", fmt.Sprintf("after the authentic announcement of %s was accepted, the same frame with byte %d modified changed the route:\n%s", c.origin, pos, vc.tableKey()), wit)
+					return
+				}
+			}
+			res.Count("tampered_redeliveries_rejected", 6)
 			res.Count("accepted_authentic", 1)
 			if len(c.layers) > int(res.Counter("max_authentic_depth")) {
 				res.Count("max_authentic_depth", int64(len(c.layers))-res.Counter("max_authentic_depth"))
